@@ -83,6 +83,12 @@ class DataCase(object):
         self.em_names = [EMS[int(rng.integers(4))] for _ in range(self.n_out)]
         self.obs_names = ['biomarker %d' % o for o in range(self.n_out)] \
             if rng.random() < 0.5 else list(self.outputs)
+        self.observable_codes = False
+        if rng.random() < 0.15:
+            # observables identified by integer codes (DVID style) and
+            # mapped explicitly
+            self.obs_names = [11 + o for o in range(self.n_out)]
+            self.observable_codes = True
         self.map_explicit = self.obs_names != self.outputs or \
             rng.random() < 0.3
         self.map_reversed = bool(rng.integers(2))
@@ -364,6 +370,7 @@ def posterior_case(ctx, rng, idx):
              'id_style': case.id_style, 'doses': case.has_doses,
              'duration_column': case.with_duration_col,
              'explicit_mapping': case.map_explicit,
+             'integer_observable_codes': case.observable_codes,
              'mapping_reversed': case.map_explicit and case.map_reversed,
              'mapping_extra_key': case.map_explicit and case.map_extra_key,
              'renamed_keys': case.key_names['id'] != 'ID'}
